@@ -92,9 +92,28 @@ def expected_alias(fd, p, convention):
     return specs.convert_parameter_name(p.name, convention)
 
 
+def family(base, rot):
+    """a child of `base` with a synthetic overload family vfOver (same name, overloads told apart by the type of the first
+    argument, two defaulted parameters whose values show in the result) registered in rotation `rot`"""
+    from yaql.language import specs, yaqltypes
+
+    def mk(tag, tp):
+        @specs.parameter('x', tp)
+        @specs.extension_method
+        def over(x, k=7, j='d'):
+            return [tag, x if not hasattr(x, '__iter__') or isinstance(x, str) else list(x), k, j]
+        return over
+    fns = [mk('int', yaqltypes.Integer()), mk('str', yaqltypes.String()), mk('seq', yaqltypes.Sequence()), mk('dict', yaqltypes.PythonType(dict, False))]
+    c = base.create_child_context()
+    for f in fns[rot:] + fns[:rot]:
+        c.register_function(f, name='vfOver')
+    return c
+
+
 def sweep(rep, wd, engine, ctx, label, quick, rng):
     import yaql
     from yaql.language import specs, yaqltypes
+    ctx = family(ctx, 0)
     if True:
         regex_obj = engine("regex('a')").evaluate(context=ctx)
         corpus = CORPUS + [regex_obj]
@@ -207,7 +226,7 @@ def sweep(rep, wd, engine, ctx, label, quick, rng):
         from collections import Counter
         cnt_names = Counter(nm for nm, _fd in fds)
         multi = set(nm for nm, k in cnt_names.items() if k >= 2)
-        fresh = [yaql.create_context(convention=ctx.convention) for _ in range(4)]
+        fresh = [family(yaql.create_context(convention=ctx.convention), i) for i in range(4)]
         states = list(tlaval.parse_dump(dump + '.dump'))
         for st in states:
             si = st['sig'] - 1
